@@ -95,6 +95,26 @@ class GNode(Generic[T1]):
     nxt: Optional[Self] = None
     kids: List[Self] = field(default_factory=list)
 
+S1 = TypeVar('S1')
+
+@dataclass
+class GA(Generic[T1]):
+    a: T1
+
+@dataclass
+class GB(Generic[S1]):
+    b: S1
+
+@dataclass
+class GC(GA[T1], GB[S1], Generic[S1, T1]):
+    # the explicit Generic[...] fixes the order of the parameters: GC[int, date] is S1=int, T1=date
+    pass
+
+@dataclass
+class GD(GA[List[S1]], Generic[S1]):
+    # a type variable INSIDE the argument handed to a generic base
+    pass
+
 class NTg(NamedTuple, Generic[T1]):
     x: T1
     xs: List[T1]
@@ -140,6 +160,8 @@ class Rare@MIX@:
     tgs: List[TDg[int]] = field(default_factory=list)
     ng: NTg[datetime.date] = field(default_factory=lambda: NTg(datetime.date(2000, 1, 1), []))
     gn: GNode[datetime.date] = field(default_factory=lambda: GNode(datetime.date(2000, 1, 1)))
+    gc: GC[int, datetime.date] = field(default_factory=lambda: GC(a=datetime.date(2000, 1, 1), b=0))
+    gd: GD[datetime.date] = field(default_factory=lambda: GD([]))
 @CFG@
 @dataclass
 class RareD(DataClassDictMixin):
@@ -182,7 +204,8 @@ def rare_constructors_case(rng, rec):
                    wopt=m.DictWrapper({1: 2}) if rng.random() < 0.5 else None,
                    bo=m.Box2(rng.choice([None, d2])), fo=rng.choice([None, d1]), fu=rng.choice([None, 3, "s"]),
                    tg=rng.choice([{"item": d1}, {"item": d2, "note": "n"}, {"item": d1, "items": [d2]}]), tgs=[{"item": 1}, {"item": 2, "note": "n", "items": [3]}],
-                   ng=m.NTg(d1, [d2, d1], rng.choice([None, d2])), gn=m.GNode(d1, m.GNode(d2, m.GNode(d1)), [m.GNode(d2)]))
+                   ng=m.NTg(d1, [d2, d1], rng.choice([None, d2])), gn=m.GNode(d1, m.GNode(d2, m.GNode(d1)), [m.GNode(d2)]),
+                   gc=m.GC(a=d1, b=7), gd=m.GD([d2, d1]))
         vd = m.RareD(shapes=[m.Circle(1, r=2), m.Sq(3, side=d2)], shmap={"k": m.Sq(4, side=d1)}, shopt=m.Circle(5, r=6) if rng.random() < 0.5 else None)
         expd = {"shapes": [{"area": 1, "kind": "circle", "r": 2}, {"area": 3, "kind": "sq", "side": d2.isoformat()}],
                 "shmap": {"k": {"area": 4, "kind": "sq", "side": d1.isoformat()}}, "shopt": {"area": 5, "kind": "circle", "r": 6} if vd.shopt is not None else None}
@@ -207,7 +230,8 @@ def rare_constructors_case(rng, rec):
                "tg": {k: (x.isoformat() if k == "item" else [i.isoformat() for i in x] if k == "items" else x) for k, x in v.tg.items()},
                "tgs": [{"item": 1}, {"item": 2, "note": "n", "items": [3]}],
                "ng": [d1.isoformat(), [d2.isoformat(), d1.isoformat()], None if v.ng.o is None else v.ng.o.isoformat()],
-               "gn": {"v": d1.isoformat(), "nxt": {"v": d2.isoformat(), "nxt": {"v": d1.isoformat(), "nxt": None, "kids": []}, "kids": []}, "kids": [{"v": d2.isoformat(), "nxt": None, "kids": []}]}}
+               "gn": {"v": d1.isoformat(), "nxt": {"v": d2.isoformat(), "nxt": {"v": d1.isoformat(), "nxt": None, "kids": []}, "kids": []}, "kids": [{"v": d2.isoformat(), "nxt": None, "kids": []}]},
+               "gc": {"b": 7, "a": d1.isoformat()}, "gd": {"a": [d2.isoformat(), d1.isoformat()]}}
         routes = [("codec", BasicEncoder(m.Rare).encode, BasicDecoder(m.Rare).decode)]
         if mixin:
             routes.append(("mixin", lambda x: x.to_dict(), m.Rare.from_dict))
